@@ -176,9 +176,9 @@ Definition retain_label (st : store) (label : option string) (ids : list Z) : li
   | None => ids
   | Some l => filter (fun i => match get_node st i with Some n => has_label n l | None => false end) ids
   end.
-(** try_plan_filter_with_property_index: the NodeListOperator's rows; the predicate itself is NOT
-    applied again (conjuncts that are not equalities on the scan variable are lost) *)
-Definition try_index (st : store) (ix : index) (p : lexpr) (input : lop) : option tbl :=
+(** try_plan_filter_with_property_index before 08d6ceb: the NodeListOperator's rows; the predicate
+    itself was NOT applied again (conjuncts that are not equalities on the scan variable were lost) *)
+Definition try_index_pre (st : store) (ix : index) (p : lexpr) (input : lop) : option tbl :=
   match input with
   | LScan x label =>
       let conds := collect_eq x p in
@@ -189,6 +189,13 @@ Definition try_index (st : store) (ix : index) (p : lexpr) (input : lop) : optio
              else None
       end
   | _ => None
+  end.
+
+(** since 08d6ceb a FilterOperator with the whole predicate sits on the NodeListOperator *)
+Definition try_index (st : store) (ix : index) (p : lexpr) (input : lop) : option tbl :=
+  match try_index_pre st ix p input with
+  | Some t => Some (filter_tbl (fun r => passes_row st (cols t) r p) t)
+  | None => None
   end.
 
 (** * The range path *)
@@ -284,9 +291,9 @@ Definition leaf_src (idx : nat) (cells : list cell) : res (option Z) :=
   | Some c => match cell_node_id c with Some z => Ok (Some z) | None => Err end
   end.
 (** one expansion step applied to every entry of the deepest level; also counts the new entries.
-    [ci]: the first level compares the edge type ignoring ASCII case
-    (FactorizedExpandOperator::get_neighbors), deeper levels compare exactly
-    (FactorizedExpandChain::expand_deepest_level) *)
+    [ci]: every level compares the edge type ignoring ASCII case, like the flat ExpandOperator
+    (before c5b2b84 the deeper levels, FactorizedExpandChain::expand_deepest_level, compared exactly:
+    [ci = false]) *)
 Fixpoint grow (st : store) (ci : bool) (idx : nat) (d : dir) (ty : option string) (t : ftree) : res (ftree * nat) :=
   match t with
   | FNode c None =>
@@ -318,7 +325,7 @@ Fixpoint fact_steps (st : store) (i0 : nat) (steps : list step) (is_first : bool
   match steps with
   | [] => Ok (f, added)
   | s :: rest =>
-      do g <- grow_forest st is_first (if is_first then i0 else 1%nat) (s_dir s) (s_type s) f;
+      do g <- grow_forest st true (if is_first then i0 else 1%nat) (s_dir s) (s_type s) f;
       match snd g with
       | O => fact_steps st i0 rest false f added
       | _ => fact_steps st i0 rest false (fst g) (S added)
@@ -359,12 +366,15 @@ Definition fact_count (base : tbl) (added : nat) (flat : list row) (star : bool)
            | _ => Z.of_nat (List.length flat)
            end
   end.
-Definition simple_count (a : aggx) : option bool :=      (* Some star? *)
+Definition simple_count_pre (a : aggx) : option bool :=      (* Some star? *)
   match ag_fn a, ag_arg a with
   | (ACount | ACountNN), None => Some true
   | (ACount | ACountNN), Some (EVar _) => Some false
   | _, _ => None
   end.
+(** since 6a43305 is_simple_aggregate refuses COUNT(DISTINCT ..) *)
+Definition simple_count (a : aggx) : option bool :=
+  if ag_distinct a then None else simple_count_pre a.
 
 (** * The planner *)
 (** the columns of a plan as the planner computes them WITHOUT executing anything (planning errors
@@ -403,6 +413,8 @@ Fixpoint plan_cols (p : lop) : res (list string) :=
       do _ <- mapM (key_col cs1) es;
       Ok (map expr_name gb ++ map agg_name aggs)
   end.
+(** since bad2e33 plan_filter consults the (node) zone maps only directly above a node scan *)
+Definition is_scan (p : lop) : bool := match p with LScan _ _ => true | _ => false end.
 Record chain := mkChain { ch_base : res tbl; ch_steps : list step }.
 Fixpoint runc (o : opts) (st : store) (p : lop) : res tbl * option chain :=
   match p with
@@ -433,7 +445,7 @@ Fixpoint runc (o : opts) (st : store) (p : lop) : res tbl * option chain :=
   | LFilter e input =>
       let '(rin, _) := runc o st input in
       let generic := do t <- rin; Ok (filter_tbl (fun r => passes_row st (cols t) r e) t) in
-      (if o_zone o && match zone_check st e with Some false => true | _ => false end
+      (if o_zone o && is_scan input && match zone_check st e with Some false => true | _ => false end
        then do cs <- plan_cols input; Ok (mkT cs [])
        else match (if o_index o then try_index st (idx_of st) e input else None) with
             | Some t => Ok t
